@@ -482,6 +482,22 @@ def predicate_scenarios(prog: Program, fi: FuncInfo, edges, depth: int = 0) -> l
                     for sub in predicate_scenarios(prog, fi, fakes, depth + 1):
                         alts.append([(x_a, x_t, x_f, b if x_f is fi else _n) for x_a, x_t, x_f, _n in sub])
                 alts = alts or [[(a, truth, fi, b)]]
+            if isinstance(a, ast.Name) and depth < 2 and getattr(b, "id", -1) >= 0:
+                # a flag several assignments can have set (the result of a spliced predicate helper): one scenario per
+                # definition that can have given it this truth value, with what is known where that definition sits
+                fl_ = prog.flow(fi)
+                ds_ = fl_.reaching(b, a.id) if a.id in fl_.defs_of_var else []
+                if len(ds_) >= 2 and all(d.kind == "assign" and d.value is not None for d in ds_):
+                    got_alts = []
+                    for d in ds_:
+                        if isinstance(d.value, ast.Constant) and bool(d.value.value) is not truth:
+                            continue
+                        edges_d = {(x, l) for x, l in (_must(fl_.cfg, fl_.cfg.entry, d.node) or set()) if x.kind == "test"}
+                        val_edges = set() if isinstance(d.value, ast.Constant) else {(type("N", (), {"kind": "test", "ast": d.value, "id": -77})(), "T" if truth else "F")}
+                        for sub in predicate_scenarios(prog, fi, edges_d | val_edges, depth + 1):
+                            got_alts.append([(a, truth, fi, b)] + [(x_a, x_t, x_f, (b if x_f is fi and getattr(x_n, "id", -1) < 0 else x_n)) for x_a, x_t, x_f, x_n in sub])
+                    if got_alts:
+                        alts = got_alts[:16]
             if isinstance(a, ast.Call) and depth < 2:
                 t = prog.resolve_call(fi, a)
                 if isinstance(t, list) and len(t) == 1 and not isinstance(t[0].node, ast.Lambda):
